@@ -208,11 +208,15 @@ def run(ctx: Ctx) -> None:
         ctx.ob("C15-4", "G7", fn, "never truncates the log", q not in trunc, f"LSMTree.{q} cannot reach a log truncation" + ("" if q not in trunc else f" — it does, through {via or 'a direct call'}"))
     ctx.ob("C15-4", "G7", rv, "replay leaves the log alone", not any(isinstance(c.func, ast.Attribute) and path_of(c.func.value) == "self._wal" and c.func.attr not in ("recover",) for c in calls_in(rv.node)),
            "recovery only reads the log (entries stay until a later flush checkpoints them)")
-    for r, k in (("C15-1", 5), ("C15-2", 4), ("C15-3", 8), ("C15-4", 5)):
+    from .common import applied_before_suspension
+    applied_before_suspension(ctx, "C15-3", prog.func(MEMT, "Memtable.put"), "self._data[key]",
+                              "Memtable.put applies the write before its latency suspends: a write acknowledged by the log is in the memtable the next flush carries away (applied after the latency it can land in a memtable already flushed and dropped, while the log entry is truncated)")
+    for r, k in (("C15-1", 5), ("C15-2", 4), ("C15-3", 9), ("C15-4", 5)):
         ctx.floor(r, k)
 
 
 MUTANTS = [
+    ("memtable-put-applies-after-latency", MEMT, "        self._data[key] = value\n        self._total_writes += 1\n        self._total_bytes_written += 64  # estimate\n        yield self._write_latency\n", "        self._total_writes += 1\n        self._total_bytes_written += 64  # estimate\n        yield self._write_latency\n        self._data[key] = value\n", "C15-3"),
     ("recover-flushes-mid-replay", LSM, "                self._memtable.put_sync(entry.key, entry.value)\n            wal_recovered", "                if self._memtable.put_sync(entry.key, entry.value):\n                    self._flush_memtable_sync()\n            wal_recovered", "C15-4"),
     ("durable-before-sync", WAL, "            yield self._sync_latency\n            self._synced_up_to_sequence = seq\n", "            self._synced_up_to_sequence = seq\n            yield self._sync_latency\n", "C15-1"),
     ("durable-without-policy", WAL, "        if self._sync_policy.should_sync(self._writes_since_sync, time_since_sync):\n            yield self._sync_latency\n            self._synced_up_to_sequence = seq", "        if True:\n            yield self._sync_latency\n            self._synced_up_to_sequence = seq", "C15-1"),
